@@ -21,6 +21,7 @@ VERUS_UNITS = {
     "misc": ("units_misc", ["C08", "C13", "C14", "C15", "C19", "C05"]),
     "adapters": ("units_adapters", ["C02", "C14", "C11", "C18"]),
     "gpu": ("units_gpu", ["C01", "C06", "C10"]),
+    "daemon": ("units_daemon", ["C16"]),
 }
 # which units to run for a property
 VERUS_FOR = {}
@@ -56,7 +57,7 @@ def kani_harnesses():
             if not os.path.exists(p):
                 continue
             txt = open(p).read()
-            names = re.findall(r'\bfn\s+((?:c\d\d_)+\w+)\s*\(\s*\)', txt) + re.findall(r'extract_harness!\(\s*((?:c\d\d_)+\w+)', txt)
+            names = re.findall(r'\bfn\s+((?:c\d\d_)+\w+)\s*\(\s*\)', txt) + re.findall(r'(?:extract_harness|index_range)!\(\s*((?:c\d\d_)+\w+)', txt)
             for name in names:
                 props = ["C" + x for x in re.findall(r'c(\d\d)_', re.match(r'((?:c\d\d_)+)', name).group(1))]
                 props += KANI_ALSO.get(name, [])
@@ -181,7 +182,7 @@ def run_verus_unit(name, prop, tier, keep=False):
         marker = None
         for L in [d["line"]] + d.get("all_lines", []):
             marker = marker or extracted_marker(lines, L)
-        key = "verus:%s:%s:%s:%s" % (name, d["fn"], (marker or "env").replace(" ", "_"), d["message"].replace(" ", "_"))
+        key = "verus:%s:%s:%s:%s:%s" % (name, d["fn"], (marker or "env").replace(" ", "_"), (d["label"] or "-").replace(" ", ""), d["message"].replace(" ", "_"))
         if "Resource limit" in d["message"] or "rlimit" in d["message"]:
             res["status"] = "undecided"
             res["undecided"] = "rlimit in %s" % d["fn"]
@@ -215,7 +216,8 @@ def run_kani(prop, tier, harnesses):
     for grp, hs in groups.items():
         log = os.path.join(SCRATCH, "kani.%s.%s.%d.log" % (prop, grp, os.getpid()))
         os.makedirs(SCRATCH, exist_ok=True)
-        r = kx.run_group(grp, sorted(hs), timeout_s=(900 if tier == "quick" else 3600), log_path=log)
+        r = kx.run_group(grp, sorted(hs), timeout_s=(1500 if tier == "quick" else 7200), log_path=log,
+                         harness_timeout_s=(480 if tier == "quick" else 3000), rss_limit_gb=(10 if tier == "quick" else 20))
         res["cmds"].append(r.cmd)
         res["time_s"] += r.wall_s
         if r.missing_anchor:
